@@ -240,7 +240,7 @@ CONTRACTS.append(to_hashable)
 
 # ---------------------------------------------------------------------------------------------
 sanitize = Contract(
-    M + 'sanitize', props=['C18', 'C07', 'C11'],
+    M + 'sanitize', props=['C18', 'C07', 'C11', 'C15', 'C06'],
     params={'value': PYV}, returns=PYV, ret_fresh=True,
     requires=lambda c: [('wf', J.wf(c.value))],
     ensures=lambda c: [('is-round-trip', c.res == J.rt(c.value))],
